@@ -1,6 +1,7 @@
 package httpgen
 
 import (
+	"google.golang.org/protobuf/compiler/protogen"
 	"google.golang.org/protobuf/reflect/protoreflect"
 	"google.golang.org/protobuf/types/descriptorpb"
 
@@ -19,8 +20,16 @@ func VerifC12Nullable() {
 	opts := &descriptorpb.FieldOptions{}
 	nullable := verif.Bool("nullable")
 	verif.SetExt(opts, http.E_Nullable, nullable)
-	_, a := c12SymField(w, m, "f1", "f1", "F1", 1, opts)
-	verif.AddField(m, &verif.FieldDesc{FName: "other", FJSON: "other", FKind: protoreflect.StringKind, FNumber: 2, FOpts: &descriptorpb.FieldOptions{}}, "Other")
+	f, a := c12SymField(w, m, "f1", "f1", "F1", 1, opts)
+	other := verif.AddField(m, &verif.FieldDesc{FName: "other", FJSON: "other", FKind: protoreflect.StringKind, FNumber: 2, FOpts: &descriptorpb.FieldOptions{}}, "Other")
+	if !a.list && !a.mp && !a.optional && verif.Bool("f1.memberOfOneof") {
+		// a member of a real oneof tracks presence without carrying the optional keyword
+		oo := &protogen.Oneof{Desc: &verif.OneofDesc{OName: "choice", OOpts: &descriptorpb.OneofOptions{}}, GoName: "Choice", Parent: m, Fields: []*protogen.Field{f, other}}
+		f.Oneof, other.Oneof = oo, oo
+		f.Desc.(*verif.FieldDesc).FOneof, other.Desc.(*verif.FieldDesc).FOneof = oo.Desc, oo.Desc
+		m.Oneofs = []*protogen.Oneof{oo}
+		verif.Reach("C12/nullable/oneof-member")
+	}
 	broken := nullable && (!a.optional || a.kind == protoreflect.MessageKind)
 	files, imported := c12Place(m)
 	c12Decide("nullable", files, imported, broken, true)
